@@ -299,6 +299,9 @@ func PanicSite(r any) string {
 	return normPanic(msg) + " @ " + site
 }
 
+// NormPanic is the exported form of normPanic.
+func NormPanic(s string) string { return normPanic(s) }
+
 // normPanic removes the concrete indices from runtime error texts so that they can be keys.
 func normPanic(s string) string {
 	out := make([]byte, 0, len(s))
